@@ -3,6 +3,7 @@ import EupsModel.Lemmas.SetupKeep
 import EupsModel.Lemmas.SetupInverse
 import EupsModel.Lemmas.SetupLines
 import EupsModel.Lemmas.SetupShell
+import EupsModel.Lemmas.SetupKeepD
 /-! C04 — setup changes only what it was asked to (keep, just, max-depth, bystanders).
 Model: `EupsModel/Model/Setup.lean`; lemmas: `EupsModel/Lemmas/SetupInv.lean`, `SetupFrame.lean`, `SetupKeep.lean`.
 
@@ -187,14 +188,37 @@ private theorem selectVRO_keep (inexact : Bool) (tags : List Str) : VroEnt.keep 
   have hd : ∀ l : List VroEnt, VroEnt.keep ∈ dedup [] (VroEnt.keep :: l) := by intro l; simp [dedup]
   cases inexact <;> cases tags <;> simp [dedup, List.mem_filter]
 
-/-- With `--keep`, every product `m` other than the requested one that was set up keeps its version — unless the
-requested product is itself set up beforehand (in any declared version `sd`, the same one included) **and** a dependency
-line of `sd`'s own table leads to `m` (`ReachFrom db sd m`): that is exactly D21's class (`sd` is unwound together with
-what its table names before `keep` is consulted; witness `C04_keep_drop_witness`).  Every database (name cycles
-included), every other flag, every fuel. -/
+private theorem aget_alreadyOfEnvD (db : Db) (l : List (Name × Ver)) (m : Name) (v : Ver) (h : aget l m = some v)
+    (hd : Decd db m v) :
+    ∃ d, aget (l.filterMap (fun (nv : Name × Ver) => (db.lookup (nv.1, nv.2)).map (fun d => (nv.1, ((d, none) : Decl × Option VroEnt))))) m
+      = some (d, none) ∧ d.ver = v := by
+  induction l with
+  | nil => simp [aget] at h
+  | cons p rest ih =>
+    obtain ⟨n', v'⟩ := p
+    by_cases hn : n' = m
+    · subst hn
+      simp [aget] at h; subst h
+      obtain ⟨d', hd'⟩ := hd
+      simp only [List.filterMap_cons, hd', Option.map_some]
+      exact ⟨d', by simp [aget], (lookup_some db _ d' hd').2.2⟩
+    · simp [aget, hn] at h
+      obtain ⟨d, hg, hv⟩ := ih h
+      refine ⟨d, ?_, hv⟩
+      simp only [List.filterMap_cons]
+      cases hl : db.lookup (n', v') with
+      | none => simpa using hg
+      | some d0 => simp [aget, hn]; exact hg
+
+/-- With `--keep`, every product `m` other than the requested one that is set up — its record names a *declared* version;
+a record `findSetupProduct` cannot find is not a set-up product — keeps its version, unless the requested product is
+itself set up beforehand (in a declared version `sd`, the same one included) **and** a dependency line of `sd`'s own table
+leads to `m` (`ReachFrom db sd m`): exactly D21's class (`sd` is unwound together with what its table names before
+`keep` is consulted; witness `C04_keep_drop_witness`).  Every database (name cycles included), every prior environment
+(records of undeclared versions included), every other flag, every fuel. -/
 theorem C04_keep_partial (db : Db) (fuel : Nat) (r : Request) (hkeep : r.keep = true) (e : Setup.Env) (s' : St)
-    (hdecl : AllDeclared db e) (h : runSetup db fuel r e = .ok s') :
-    ∀ m v, e.rec? m = some v → m ≠ r.name →
+    (h : runSetup db fuel r e = .ok s') :
+    ∀ m v, e.rec? m = some v → (∃ d, db.lookup (m, v) = some d) → m ≠ r.name →
       (∀ sd, setupProd db e r.name = some sd → ¬ ReachFrom db sd m) → s'.env.rec? m = some v := by
   unfold runSetup at h
   cases fuel with
@@ -220,22 +244,23 @@ theorem C04_keep_partial (db : Db) (fuel : Nat) (r : Request) (hkeep : r.keep = 
         alreadyOK_aset _ _ (alreadyOfEnv_ok db e) d reason hc
       have hvro : VroEnt.keep ∈ r.vro := by
         unfold Request.vro; rw [hkeep]; exact selectVRO_keep _ _
-      intro m v hmv hne hreach
-      refine install_keep_top (r.cfg db) k false r.vro hvro d reason hc
-        ⟨e, [], [], aset (alreadyOfEnv db e) d.name (d, reason), c0⟩ s' hal ?_ h m v (by rw [hname]; exact hne) hmv
+      intro m v hmv hdv hne hreach
+      refine install_keep_topD (r.cfg db) k false r.vro hvro d reason hc
+        ⟨e, [], [], aset (alreadyOfEnv db e) d.name (d, reason), c0⟩ s' hal ?_ h m v (by rw [hname]; exact hne) hmv hdv
         (by rw [hname]; exact hreach)
-      intro m' v' hne' hmv'
-      obtain ⟨d', hg, hv⟩ := aget_alreadyOfEnv db e.recs hdecl m' v' hmv'
+      intro m' v' hne' hmv' hd'
+      obtain ⟨d', hg, hv⟩ := aget_alreadyOfEnvD db e.recs m' v' hmv' hd'
       refine ⟨d', none, ?_, hv⟩
       show aget (aset (alreadyOfEnv db e) d.name (d, reason)) m' = _
       rw [aget_aset_other _ _ _ _ hne']; exact hg
 
-/-- the form of the earlier rounds — the requested product is not set up beforehand — is a corollary -/
+/-- the form of the earlier rounds — the requested product is not set up beforehand, records name declared versions —
+is a corollary -/
 theorem C04_keep_fresh (db : Db) (fuel : Nat) (r : Request) (hkeep : r.keep = true) (e : Setup.Env) (s' : St)
     (hdecl : AllDeclared db e) (hnot : e.rec? r.name = none)
     (h : runSetup db fuel r e = .ok s') : ∀ m v, e.rec? m = some v → s'.env.rec? m = some v := by
   intro m v hmv
-  refine C04_keep_partial db fuel r hkeep e s' hdecl h m v hmv ?_ ?_
+  refine C04_keep_partial db fuel r hkeep e s' h m v hmv (hdecl m v (aget_mem _ _ _ hmv)) ?_ ?_
   · intro e'; rw [e', hnot] at hmv; cases hmv
   · intro sd hsp
     obtain ⟨_, _, hr⟩ := setupProd_some _ _ _ _ hsp
@@ -345,5 +370,14 @@ example : OwnTables dbKeep ∧ ∀ key, ¬ AliasOf dbKeep (fun _ n => ∃ k, Wit
   intro key ⟨d, hd, _, g, val, hg⟩
   simp [dbKeep] at hd
   rcases hd with rfl | rfl | rfl <;> simp at hg
+
+def nB9 : Name := [98]
+def v9 : Ver := ([57], 0)
+
+/-- the hypotheses of `C04_keep_partial` tolerate a record of an undeclared version (`b 9`): it is not a set-up product,
+`c 1` beside it is kept -/
+example : (⟨[(nB9, v9), (nC, v1)], [], [], []⟩ : Setup.Env).rec? nC = some v1 ∧ (∃ d, dbKeep.lookup (nC, v1) = some d) ∧
+    dbKeep.lookup (nB9, v9) = none := by
+  refine ⟨by decide +kernel, ⟨⟨nC, v1, [3], []⟩, by decide +kernel⟩, by decide +kernel⟩
 
 end EupsModel.C04
